@@ -104,14 +104,7 @@ theorem SE3_hat_Adj_aux (X : SE3 ℝ) (hX : SE3.Valid X) (a : se3 ℝ) :
       | linear_combination (-1 : ℝ) * h10 | linear_combination (-1 : ℝ) * h11 | linear_combination (-1 : ℝ) * h12
       | linear_combination (-1 : ℝ) * h20 | linear_combination (-1 : ℝ) * h21 | linear_combination (-1 : ℝ) * h22
 
-theorem RxSO3_matrix_blocks (X : RxSO3 ℝ) :
-    RxSO3matrix X =
-      [ ((SO3matrix X.q).r0.smul X.s).toList ++ [0], ((SO3matrix X.q).r1.smul X.s).toList ++ [0],
-        ((SO3matrix X.q).r2.smul X.s).toList ++ [0], [0, 0, 0, 1] ] := by
-  simp only [RxSO3matrix, matrix4, RxSO3Act4, SO3matrix, Vec3.toList, List.cons_append, List.nil_append]
-  lie_unfold
-  simp only [List.cons.injEq, and_true]
-  (repeat' apply And.intro) <;> first | ring1 | simp
+-- `RxSO3_matrix_blocks` (blocks of the RxSO3 `matrix()`) is C03's theorem of that name
 
 theorem RxSO3_hat_Adj_aux (X : RxSO3 ℝ) (hX : RxSO3.Valid X) (a : rxso3 ℝ) :
     (RxSO3matrix X).toMatrix4 * rxso3hat a = rxso3hat (rxso3.ofList (RxSO3AdjXa X a)) * (RxSO3matrix X).toMatrix4 := by
